@@ -14,6 +14,8 @@
 use std::{fmt, future::Future, pin::Pin, sync::Arc, task};
 
 use crate::{signal, time};
+#[cfg(era_consensus_verif)]
+use crate::verif::tokio_shim as tokio;
 
 pub mod channel;
 mod clock;
